@@ -13,7 +13,7 @@ INF = math.inf
 
 
 class AV:
-    __slots__ = ("lo", "hi", "kind", "member", "size", "note", "esize", "opaque", "items", "text", "parts")
+    __slots__ = ("lo", "hi", "kind", "member", "size", "note", "esize", "opaque", "items", "text", "parts", "fn", "flag")
 
     def __init__(self, lo=-INF, hi=INF, kind="unknown", member=None, size=None, note="", esize=None, opaque=False, items=None, text=None, parts=None):
         self.lo, self.hi, self.kind, self.member, self.size, self.note, self.esize = lo, hi, kind, member, size, note, esize
@@ -21,9 +21,12 @@ class AV:
         self.items = items       # element values of a tuple/list display (for unpacking and *args)
         self.text = text         # a string literal (a command template passed to a helper)
         self.parts = parts       # a command string built from literal text and interpolated values
+        self.fn = None           # a callable value (lambda / nested def handed to a helper): (node, defining environment, its closures)
+        self.flag = None         # a boolean that is True exactly when the guarded clamp of this `if` node was taken
 
     def copy(self, **kw):
         a = AV(self.lo, self.hi, self.kind, self.member, self.size, self.note, self.esize, self.opaque, self.items, self.text, self.parts)
+        a.fn, a.flag = self.fn, self.flag
         for k, v in kw.items():
             setattr(a, k, v)
         return a
@@ -51,7 +54,14 @@ def hull(a: AV, b: AV):
     esize = hull(a.esize, b.esize) if (a.esize is not None and b.esize is not None) else None
     items = [hull(x, y) for x, y in zip(a.items, b.items)] if (a.items is not None and b.items is not None and len(a.items) == len(b.items)) else None
     text = a.text if (a.text is not None and a.text == b.text) else None
-    return AV(min(a.lo, b.lo), max(a.hi, b.hi), kind, member, size, "", esize, a.opaque or b.opaque, items, text)
+    out = AV(min(a.lo, b.lo), max(a.hi, b.hi), kind, member, size, "", esize, a.opaque or b.opaque, items, text)
+    out.fn = a.fn if a.fn is b.fn else None
+    # True-in-the-clamp-branch joined with the constant False of the other return: still "True exactly when clamped"
+    if a.flag is not None and (b.flag is a.flag or (b.lo == b.hi == 0)):
+        out.flag = a.flag
+    elif b.flag is not None and a.lo == a.hi == 0:
+        out.flag = b.flag
+    return out
 
 
 TOP = AV()
@@ -74,6 +84,7 @@ class IntervalInterp:
         self.branch_info = []           # (if node, has_clip, has_warn, has_raise)
         self.returns = []               # AV of every returned value
         self.local_funcs = {}           # nested defs of the function under analysis (closures): name -> FunctionDef
+        self.flag_warned = set()        # `if` nodes of clamps whose "was clamped" flag is tested by a caller that warns
 
     # ------------------------------------------------------------------ entry
     def run(self, fnode: ast.FunctionDef):
@@ -135,7 +146,19 @@ class IntervalInterp:
                 for e_ in (e1, e2):
                     self._mark_unread(s.test, e_)
             self.ev(s.test, env)
+            tv = env.get(s.test.id) if isinstance(s.test, ast.Name) else None
+            if isinstance(tv, AV) and tv.flag is not None and any(isinstance(n, ast.Call) and _callname(n).endswith("warn") for b in s.body for n in ast.walk(b)) \
+                    and not any(isinstance(n, ast.Raise) for b in s.body for n in ast.walk(b)):
+                self.flag_warned.add(tv.flag)       # `values, clipped = self._clip(...)` ... `if clipped: warn`: the warning of that clamp
+            n_ret = len(self.returns)
             self.block(s.body, e1)
+            if any(isinstance(n, ast.Call) and _callname(n).endswith("clip") for b in s.body for n in ast.walk(b)):
+                # `return clamped, True` inside the clamp branch: the second element tells the caller that the clamp was taken
+                for st_, r_ in zip([x for x in s.body if isinstance(x, ast.Return)], self.returns[n_ret:]):
+                    if isinstance(st_.value, ast.Tuple) and r_.items is not None and len(r_.items) == len(st_.value.elts):
+                        for k_, e_ in enumerate(st_.value.elts):
+                            if isinstance(e_, ast.Constant) and e_.value is True:
+                                r_.items[k_] = r_.items[k_].copy(flag=s)
             self.block(s.orelse, e2)
             has_clip = any(isinstance(n, ast.Call) and _callname(n).endswith("clip") for b in s.body for n in ast.walk(b))
             has_warn = any(isinstance(n, ast.Call) and _callname(n).endswith("warn") for b in s.body for n in ast.walk(b))
@@ -486,9 +509,17 @@ class IntervalInterp:
         if isinstance(n, ast.Name):
             if n.id in env and isinstance(env[n.id], AV):
                 return env[n.id]
+            if n.id in self.local_funcs:
+                f_ = AV(kind="func")
+                f_.fn = (self.local_funcs[n.id], env, self.local_funcs)
+                return f_
             if n.id in self.consts:
                 return self._const_av(self.consts[n.id])
             return AV()
+        if isinstance(n, ast.Lambda):
+            f_ = AV(kind="func")
+            f_.fn = (n, env, self.local_funcs)
+            return f_
         if isinstance(n, ast.Attribute):
             if isinstance(n.value, ast.Name) and n.value.id in ("self", "cls") and n.attr in self.consts:
                 return self._const_av(self.consts[n.attr])
@@ -503,7 +534,18 @@ class IntervalInterp:
             k = "$expr:" + ast.unparse(n)
             if k in env and isinstance(env[k], AV):
                 return env[k]
-            return self.arith(n.op, self.ev(n.left, env), self.ev(n.right, env))
+            l_, r_ = self.ev(n.left, env), self.ev(n.right, env)
+            if isinstance(n.op, ast.Add) and ((l_.kind == "str" and l_.parts is not None and r_.kind in ("str", "unknown"))
+                                              or (r_.kind == "str" and r_.parts is not None and l_.kind in ("str", "unknown"))):
+                # f'#{k}{n}' + ''.join(bits): one command text, the pieces in their order
+                def pieces(v, node):
+                    if v.parts is not None:
+                        return list(v.parts)
+                    if v.text is not None:
+                        return [("text", v.text)]
+                    return [("slot", ast.unparse(node), v if v.member is not None else v.copy(opaque=True), "")]
+                return AV(kind="str", parts=pieces(l_, n.left) + pieces(r_, n.right))
+            return self.arith(n.op, l_, r_)
         if isinstance(n, (ast.List, ast.Tuple)):
             vs = [self.ev(e, env) for e in n.elts]
             if not vs:
@@ -555,7 +597,7 @@ class IntervalInterp:
             for v in n.values:
                 self.ev(v, env)
             return AV()
-        if isinstance(n, ast.ListComp):
+        if isinstance(n, (ast.ListComp, ast.GeneratorExp)):
             sub = dict(env)
             for g in n.generators:
                 it = self.ev(g.iter, sub)
@@ -632,14 +674,32 @@ class IntervalInterp:
         elif isinstance(n.func, ast.Name) and n.func.id in self.functions:
             callee = self.functions[n.func.id]
         closure = False
+        cenv, cfuncs = env, self.local_funcs
         if callee is None and isinstance(n.func, ast.Name) and n.func.id in self.local_funcs and n.func.id not in env:
             callee, closure = self.local_funcs[n.func.id], True
+        if callee is None and isinstance(n.func, ast.Name) and isinstance(env.get(n.func.id), AV) and env[n.func.id].fn is not None:
+            # a callable handed in by the caller (command builder): interpreted in the environment it was written in
+            callee, cenv, cfuncs = env[n.func.id].fn
+            closure = True
+        if any(isinstance(a, ast.Starred) for a in args) and last == "clip":
+            # np.clip(x, *limits) with limits a tuple display of known length
+            flat = []
+            for a in args:
+                sv = self.ev(a.value, env) if isinstance(a, ast.Starred) else None
+                if sv is not None and sv.items is not None:
+                    for k_, it_ in enumerate(sv.items):
+                        nm = f"$star:{id(a)}:{k_}"
+                        env[nm] = it_
+                        flat.append(ast.Name(id=nm, ctx=ast.Load()))
+                else:
+                    flat.append(a)
+            args = flat
         if callee is not None and self.depth < 4 and not any(k.arg is None for k in n.keywords) and callee.args.vararg is None and callee.args.kwarg is None:
             # helper of the same module (or a closure of this function): interpreted with the caller's argument values
             sub = IntervalInterp(self.consts, self.summaries, self.query_names, self.functions, self.depth + 1)
             sub.operator_names = getattr(self, "operator_names", ())
             params = [a.arg for a in callee.args.posonlyargs + callee.args.args if a.arg not in ("self", "cls")]
-            senv = dict(env) if closure else {}
+            senv = dict(cenv) if closure else {}
             senv.pop("__dead__", None)
             for p_ in params + [a.arg for a in callee.args.kwonlyargs]:
                 senv[p_] = AV()
@@ -665,8 +725,15 @@ class IntervalInterp:
                 for k in n.keywords:
                     if k.arg in senv:
                         senv[k.arg] = self.ev(k.value, env)
-            sub.fname = callee.name
-            sub.local_funcs = dict(self.local_funcs) if closure else {}
+            sub.fname = getattr(callee, 'name', self.fname)
+            sub.local_funcs = dict(cfuncs) if closure else {}
+            sub.flag_warned = self.flag_warned
+            if isinstance(callee, ast.Lambda):
+                out = sub.ev(callee.body, senv)
+                self.sites.extend(sub.sites)
+                self.fmt_issues.extend(sub.fmt_issues)
+                self.branch_info.extend(sub.branch_info)
+                return out
             sub.block(callee.body, senv)
             # commands sent by the helper are sent with the caller's values
             self.sites.extend(sub.sites)
@@ -678,6 +745,14 @@ class IntervalInterp:
                     out = hull(out, r)
                 return out
             return AV()
+        if name == "map" and len(args) == 2 and not n.keywords and not isinstance(args[1], ast.Starred):
+            # map(f, xs) = [f(x) for x in xs]
+            sub_ = dict(env)
+            self.bind_iter(ast.Name(id="$map", ctx=ast.Store()), args[1], self.ev(args[1], sub_), sub_)
+            e_ = self.ev(ast.copy_location(ast.Call(func=args[0], args=[ast.Name(id="$map", ctx=ast.Load())], keywords=[]), n), sub_)
+            if e_.items is not None:
+                return AV(e_.lo, e_.hi, "list", e_.member, note="rows", items=e_.items)
+            return AV(e_.lo, e_.hi, "list", e_.member)
         if last == "format" and base is not None and not n.keywords:
             b = self.ev(base, env)
             if b.kind == "str" and b.text is not None:
